@@ -65,7 +65,7 @@ def choose_destination(rng):
     REPLY_FROM = responder if MULTICAST else DEST
 
 
-CATS = ["forged_addr", "forged_port", "forged_scope", "genuine_tc_short", "wrong_question_class", "wrong_id", "wrong_question", "extra_question", "empty_question_noerror", "wrong_opcode", "qr_clear", "garbage", "garbage_tc", "genuine_tc", "genuine_trailing", "genuine_malformed_tail",
+CATS = ["forged_addr", "forged_port", "forged_scope", "genuine_tc_short", "wrong_question_class", "wrong_id", "wrong_question", "extra_question", "repeated_question", "empty_question_noerror", "wrong_opcode", "qr_clear", "garbage", "garbage_tc", "genuine_tc", "genuine_trailing", "genuine_malformed_tail",
         "servfail_noq", "genuine", "genuine", "block"]
 
 
@@ -151,6 +151,13 @@ def datagram(cat, q, rng):
         extra = b"\x05extra\x07invalid\x00" + struct.pack("!HH", 1, 1)
         w[4:6] = struct.pack("!H", 2)
         return bytes(w[:qend]) + extra + bytes(w[qend:]), REPLY_FROM
+    if cat == "repeated_question":
+        # the query's own question twice over (QDCOUNT 2): not the question section that was sent
+        w = bytearray(response_wire(q, rng, answers=False))
+        walk = WW.walk(bytes(w))
+        qend = 12 + RN.wire_len(walk["questions"][0][0]) + 4
+        w[4:6] = struct.pack("!H", 2)
+        return bytes(w[:qend]) + bytes(w[12:qend]) + bytes(w[qend:]), REPLY_FROM
     if cat == "empty_question_noerror":
         return struct.pack("!HHHHHH", q.id, 0x8000, 0, 0, 0, 0), REPLY_FROM
     if cat == "wrong_opcode":
@@ -496,7 +503,7 @@ def check_udp(ctx, rng, is_async, cats=None, opts=None):
         if (frm != DEST) if not MULTICAST else (frm[1:] != DEST[1:]):
             ctx.violation(f"returned-message-from-unexpected-source:{mode}:{cats[idx]}{':multicast' if MULTICAST else ''}", f"{frm}", case)
             return
-        if cats[idx] in ("garbage", "garbage_tc", "genuine_tc_short", "genuine_malformed_tail", "wrong_id", "wrong_question", "wrong_question_class", "extra_question", "empty_question_noerror", "wrong_opcode", "qr_clear") or (cats[idx] == "genuine_trailing" and not opts["ignore_trailing"]):
+        if cats[idx] in ("garbage", "garbage_tc", "genuine_tc_short", "genuine_malformed_tail", "wrong_id", "wrong_question", "wrong_question_class", "extra_question", "repeated_question", "empty_question_noerror", "wrong_opcode", "qr_clear") or (cats[idx] == "genuine_trailing" and not opts["ignore_trailing"]):
             ctx.violation(f"malformed-or-mismatched-datagram-returned:{mode}:{cats[idx]}:{'ignore_errors' if opts['ignore_errors'] else 'strict'}", f"cats {cats} opts {opts}; message errors {getattr(r, 'errors', None)}", case)
             return
         if cats[idx] == "genuine_tc" and opts["raise_on_truncation"]:
